@@ -61,7 +61,19 @@ func (p Polygon) op(p2 Polygonal, op polyclip.Op) Polygon {
 	for _, pp2x := range p2.Polygons() {
 		pp2 = append(pp2, pp2x.toPolyClip()...)
 	}
-	return polyClipToPolygon(pp.Construct(op, pp2))
+	return polyClipToPolygon(pp.Construct(trivialXOr(op, pp, pp2), pp2))
+}
+
+// trivialXOr works around the clipper's shortcut for trivial cases, which
+// returns an empty result for XOR when one operand is empty or the operands'
+// bounding boxes do not overlap. The symmetric difference of such operands
+// is their union.
+func trivialXOr(op polyclip.Op, pp, pp2 polyclip.Polygon) polyclip.Op {
+	if op == polyclip.XOR && (len(pp)*len(pp2) == 0 ||
+		!pp.BoundingBox().Overlaps(pp2.BoundingBox())) {
+		return polyclip.UNION
+	}
+	return op
 }
 
 func (p Polygon) toPolyClip() polyclip.Polygon {
